@@ -66,7 +66,7 @@ def validate(reference_tempi, reference_weight, estimated_tempi):
     validate_tempi(reference_tempi, reference=True)
     validate_tempi(estimated_tempi, reference=False)
 
-    if reference_weight < 0 or reference_weight > 1:
+    if not 0 <= reference_weight <= 1:
         raise ValueError("Reference weight must lie in range [0, 1]")
 
 
@@ -109,7 +109,7 @@ def detection(reference_tempi, reference_weight, estimated_tempi, tol=0.08):
     """
     validate(reference_tempi, reference_weight, estimated_tempi)
 
-    if tol < 0 or tol > 1:
+    if not 0 <= tol <= 1:
         raise ValueError(
             "invalid tolerance {}: must lie in the range " "[0, 1]".format(tol)
         )
